@@ -419,7 +419,7 @@ def shard_eval(ctx, tag, items, want, per=40, workers=8):
 def run(ctx):
     ctx.proofs()
     hx = ctx.go_build("c01")
-    n = 70 if ctx.quick() else 1500
+    n = 110 if ctx.quick() else 2500
     if getattr(ctx, "replay_path", None):
         # re-run the program(s) recorded in a replay file instead of generating
         rp = json.load(open(ctx.replay_path))
@@ -913,6 +913,32 @@ def f(s, l):
 f("xy", [1, 2, 3])
 trace(7 // 2, -7 // 2, 7 % -2, -7 % 2, 1 << 10, -8 >> 1, 5 & 3, 5 | 3, 5 ^ 3, ~5)
 trace(10000000000000000000000 * 10000000000000000000000, -(1 << 70) // 3)
+"""),
+    ("miscellaneous-operators-and-dict-comprehension-keys", ALLOFF, """
+def f(x):
+    a = 5
+    a |= 2
+    a &= 6
+    a ^= 1
+    a <<= 2
+    a >>= 1
+    a %= 5
+    a //= 2
+    a -= 10
+    a *= -3
+    trace(+x, -(-x), ~x, not x, not not x, a)
+    trace({k % 2: k for k in range(4)}, [k for k in range(6) if k % 2 if k % 3], {k: [j for j in range(k)] for k in range(3)})
+    trace(x if x else -x, (x or 0) and (0 or x), None or False, [] and 1, x == 3, x != 3, (x, 1) == (3, 1), [x] == [3], {"a": x} == {"a": 3})
+    d = {}
+    d[(1, 2)] = "t"
+    d[x] = d.get(x, 0) + 1
+    trace(d, (1, 2) in d, len(d))
+    return a
+trace(f(3))
+trace(f(0))
+def g():
+    return {[1]: 2}
+trace(g())
 """),
     ("dict-displays-and-comprehensions", ALLOFF, """
 def f():
